@@ -27,7 +27,10 @@ EXPLANATION = (
 )
 EXPLANATION_ADD = ' Additions: (CMP-src) the source comparison is an exact equality of untransformed operands; (PARSE-hdrlen) ScionHeaderLayout::try_from_slice equates advertised and computed header size on every accepting path.'
 EXPLANATION = EXPLANATION + EXPLANATION_ADD
-RESIDUAL = ["equivalence with an independent decision procedure on all byte strings (address-type aliasing is covered only via C02/C03 tables)"]
+EXPLANATION_ADD5 = " Round-5 addition: the PANIC entry set is derived from the receive closure: every snap-dataplane function applied to the filter's result (accepted view or rejection carrying the offending view, e.g. offending_packet_is_scmp_error) is an entry, floor 3."
+EXPLANATION = EXPLANATION + EXPLANATION_ADD5
+RESIDUAL = ["equivalence with an independent decision procedure on all byte strings (address-type aliasing is covered only via C02/C03 tables)",
+            "panic-freedom behind the Dispatcher / TunnelGatewayObserver trait boundary (try_dispatch copies the packet into a pooled buffer whose capacity is a run-time value of the ana-gotatun pool; observe_packet is user code)"]
 ASSUMPTIONS = ["tokio/quinn/ana-gotatun internals do not dispatch datagrams into SCION on their own"]
 TECHNIQUE = "MIR guarded-success (must-pass-through + controlling edge), decision-table extraction over enum discriminants, provenance, panic-site reachability"
 
